@@ -48,5 +48,5 @@ def linearizability(chk, sd, binp_unused):
 
 
 def run(tier):
-    return pc.run_check("C11", tier, ("C11",), plans(tier), clauses={"RemoveGone", "DispatchToUnknown", "Spurious503", "DispatchInWindow", "ReportedHealthyInWindow"},
+    return pc.run_check("C11", tier, ("C11",), plans(tier), clauses={"RemoveGone", "DispatchToUnknown", "Spurious503", "DispatchInWindow", "ReportedHealthyInWindow", "ValidAddRefused"},
                         alias={"switch", "switch3"}, extra=linearizability)
